@@ -302,3 +302,29 @@ def poly_solve_last_block(r, prefix, T):
 
 
 POLY_TARGETS = [0, 1, 2, 3, 4, P1305 - 1, P1305 - 2, P1305 - 3, (1 << 128) - 1, (1 << 128), (1 << 129), 5, 6]
+
+
+def smallorder_pk_forgery(rng, pk_bytes, pure=True, max_tries=200):
+    """for a public-key encoding that decodes (leniently) to a small-order point A: a signature (R, S) with
+    [S]B − [k]A = R, i.e. one that a verifier without a working small-order check on the key accepts for this message."""
+    y = int.from_bytes(pk_bytes, "little")
+    sign = y >> 255
+    y = (y & ((1 << 255) - 1)) % P25519
+    x = _ed_recover_x(y, sign)
+    if x is None:
+        x = _ed_recover_x(y, 0)
+        if x is None:
+            return None
+    A = (x, y, 1, x * y % P25519)
+    for _ in range(max_tries):
+        s = int.from_bytes(bytes(rng.getrandbits(8) for _ in range(32)), "little") % ED_L
+        msg = bytes(rng.getrandbits(8) for _ in range(rng.randrange(0, 20)))
+        t = rng.randrange(8)
+        R = _ed_add(_ed_mul(s, ED_G), ed_neg(_ed_mul(t, A)))
+        Rb = ed_compress(R)
+        dom = b"" if pure else DOM2
+        m = msg if pure else sha512(msg)
+        k = int.from_bytes(sha512(dom + Rb + pk_bytes + m), "little") % ED_L
+        if ed_compress(_ed_mul(k % 8, A)) == ed_compress(_ed_mul(t, A)):
+            return msg, Rb + s.to_bytes(32, "little")
+    return None
